@@ -573,14 +573,83 @@ def colliding_keys(v, kw):
     return False
 
 
-def uncollide(v, kw):
+def clean_key_of(k, sp):
+    """The clean key the UNCHANGED `_get_clean_to_keys_mapping` (diff.py, the call site of finding C12-clean-key-collision)
+    gives a dict key, restated here from the finding and not read off diff.py: bytes decoded under ignore_string_type_changes,
+    an Enum member replaced by its value under use_enum_value, every `helper.numbers` instance - a bool IS one, DeepHash
+    tags it 'bool:' instead - rendered '<number | class name>:<number_to_string>' when a precision is in force
+    (significant_digits, or the 12 digits of ignore_numeric_type_changes), str clean keys lower-cased under
+    ignore_string_case.  Raises where the code raises."""
+    from deepdiff.helper import number_to_string, numbers
+    sig = sp["sig"] if sp["sig"] is not None else (12 if sp["numty"] else None)
+    if sp["strty"] and isinstance(k, bytes):
+        ck = k.decode("utf-8")
+    elif sp["enum"] and isinstance(k, Enum):
+        ck = k.value
+    elif isinstance(k, numbers) and sig is not None:
+        ck = "%s:%s" % ("number" if sp["numty"] else k.__class__.__name__,
+                        number_to_string(k, significant_digits=sig, number_format_notation="e" if sp["note"] else "f"))
+    else:
+        ck = k
+    if sp["case"] and isinstance(ck, str):
+        ck = ck.lower()
+    return ck
+
+
+def dropped_keys(d, sp):
+    """the keys of ONE dict whose entry `_diff_dict` never looks at: key cleaning is on and an EARLIER key (insertion order)
+    has the same clean key.  [] when key cleaning is off or cannot be computed (the code raises: another finding)."""
+    if not cleaning(sp) or sp.get("groups"):
+        return []
+    kept, out = {}, []
+    try:
+        for k in d:
+            if isinstance(k, str) and k.startswith("__") and sp.get("priv") is not False:
+                continue
+            ck = clean_key_of(k, sp)
+            if ck in kept:
+                out.append(k)
+            else:
+                kept[ck] = k
+    except Exception:  # noqa
+        return []
+    return out
+
+
+def clean_key_collision(v, sp):
+    """the feature of C12-clean-key-collision exactly where it acts: a dict (anywhere: every dict may reach `_diff_dict`)
+    with two different keys of the same clean key, whether or not DeepHash identifies the two keys (False / 0.5 under
+    ignore_numeric_type_changes + significant_digits=0: 'number:0' twice, but 'bool:False' / 'number:0' for DeepHash)"""
+    return any(dropped_keys(d, sp) for d in C11.dicts_of(v, []))
+
+
+def without_dropped(v, sp):
+    """v without the entries key cleaning drops, in the dicts on a dict-only path from the root (below a list / tuple the
+    item hashes see every entry)"""
+    if isinstance(v, dict):
+        dk = dropped_keys(v, sp)
+        return {k: without_dropped(x, sp) for k, x in v.items() if not any(k is q for q in dk)}
+    return v
+
+
+def collision_predicts_diff(x, d):
+    """clause (c): the mechanism of the finding says the diff engine never looks at a dropped entry, so its verdict on the
+    input is its verdict on the input WITHOUT the dropped entries (what DeepHash does with them is the other half)"""
+    sp = x["sp"]
+    r1, r2 = without_dropped(x["t1"], sp), without_dropped(x["t2"], sp)
+    r1, r2 = reshare(r1, r2, sp.get("share", 0))
+    return diff_verdict(r1, r2, kwargs_of(sp), x["rep"], **sp.get("knobs", {}))[0] == d
+
+
+def uncollide(v, kw, sp=None):
     from deepdiff import DeepHash
     if isinstance(v, list):
-        return [uncollide(x, kw) for x in v]
+        return [uncollide(x, kw, sp) for x in v]
     if isinstance(v, tuple):
-        return tuple(uncollide(x, kw) for x in v)
+        return tuple(uncollide(x, kw, sp) for x in v)
     if isinstance(v, dict):
         out, seen = {}, {}
+        dk = dropped_keys(v, sp) if sp is not None else []
         for k, x in v.items():
             nk = k
             if not (isinstance(k, str) and k.startswith("__")):
@@ -592,7 +661,9 @@ def uncollide(v, kw):
                     if h in seen:
                         nk = "dup%d<%r>" % (seen[h], k)
                     seen[h] = seen.get(h, 0) + 1
-            out[nk] = uncollide(x, kw)
+                if nk is k and any(k is q for q in dk):       # same clean key as an earlier key, different hash
+                    nk = "dupc<%r>" % (k,)
+            out[nk] = uncollide(x, kw, sp)
         return out
     return v
 
@@ -765,8 +836,11 @@ FEATURES = [
      lambda t1, t2, sp, c: sp["case"] and any(isinstance(k, bytes) and k != k.lower() for k in all_keys2(t1, t2)),
      both_keys(lambda k: isinstance(k, bytes), bytes.lower)),
     ("C12-clean-key-collision",
-     lambda t1, t2, sp, c: colliding_keys(t1, kwargs_of(sp)) or colliding_keys(t2, kwargs_of(sp)),
-     lambda t1, t2, sp: (uncollide(t1, kwargs_of(sp)), uncollide(t2, kwargs_of(sp)), sp)),
+     # two keys of one dict DeepHash identifies, or (exactly the finding's mechanism) two keys of one dict with the same
+     # clean key under the key cleaning in force, which DeepHash may well tell apart (a bool key next to a number)
+     lambda t1, t2, sp, c: (colliding_keys(t1, kwargs_of(sp)) or colliding_keys(t2, kwargs_of(sp))
+                            or clean_key_collision(t1, sp) or clean_key_collision(t2, sp)),
+     lambda t1, t2, sp: (uncollide(t1, kwargs_of(sp), sp), uncollide(t2, kwargs_of(sp), sp), sp)),
     ("C12-set-member-collision",
      lambda t1, t2, sp, c: c.get("rep") and (merged_members(t1, kwargs_of(sp)) or merged_members(t2, kwargs_of(sp))),
      lambda t1, t2, sp: (dedupe_sets(t1, kwargs_of(sp)), dedupe_sets(t2, kwargs_of(sp)), sp)),
@@ -833,7 +907,9 @@ PREDICTS = {
     "C12-negative-zero": LENIENT,
     "C12-sigdigits-dict-keys": STRICT,
     "C12-bytes-key-case": STRICT,
-    "C12-clean-key-collision": LENIENT | STRICT,      # which entry is dropped depends on insertion order
+    # which entry is dropped depends on insertion order: either clause, never an exception; and the diff verdict must be the
+    # one the mechanism predicts (the verdict on the input without the dropped entries)
+    "C12-clean-key-collision": lambda h, d, x: (h, d) in (LENIENT | STRICT) and collision_predicts_diff(x, d),
     "C12-set-member-collision": LENIENT,
     "C12-nonascii-bytes": STRICT,
     "C12-undecodable-bytes": lambda h, d, x: h == "X",
